@@ -161,26 +161,27 @@ func (s *semaH) Close() {
 		t.resume <- struct{}{}
 	}
 	settle()
-	for i := 0; i < 64; i++ {
+	for i := 0; i < 64 && s.q != nil; i++ {
 		s.mu.Lock()
-		busy := false
-		aBlocked := false
+		aBlocked, rBlocked := false, false
 		for _, t := range s.threads {
 			if t.started {
-				busy = true
 				if t.name == "a" {
 					aBlocked = true
+				} else {
+					rBlocked = true
 				}
 			}
 		}
 		s.mu.Unlock()
-		if !busy || s.q == nil {
+		if !aBlocked && !rBlocked {
 			break
 		}
 		if aBlocked {
-			s.q.Release()
-		} else {
-			go s.q.Acquire()
+			s.q.VerifUnstick() // a blocked acquirer: hand it a token
+		}
+		if rBlocked {
+			s.q.VerifDrain() // a blocked sender: make room
 		}
 		settle()
 	}
